@@ -52,6 +52,7 @@ func (e *Engine) typeInvForKey(key string) *typeInvInfo {
 	if strings.HasPrefix(key, "box.") {
 		return nil
 	}
+	key = baseKey(key)
 	i := strings.IndexByte(key, '.')
 	if i <= 0 {
 		return nil
